@@ -3,7 +3,10 @@ small generated sh script: optionally copies / drains its stdin into a side file
 sleeps, leaves marker files with the argv / environment it saw, exits with a status or kills itself), run them
 through the REAL subproc.call / Pipeline / Pipeline.write / HostContext.shell_out / ExecutionContext.connect /
 a generated simple_command spec (content and stream()), and record one event per phase:
-  (order of the events: spawn, stdin, time, result, after)
+  (order of the events: timing, spawn, stdin, time, result, after)
+  timing  which stages ran to their end / whether the watchdog fired: lets the trace specification see that the
+          harness' own timing assumption (a stage that does not sleep finishes long before a timeout) failed on a
+          loaded machine; such cases are run again with longer times (round 2) before anything is concluded
   spawn   what every stage saw: argv, selected environment variables, which of two same-named commands ran
   stdin   what every stage read on its standard input (caller's sentinel line / predecessor's lines / nothing)
   result  value or exception, abstracted: kind, status name, shape, the lines as tokens, exception fields
@@ -16,7 +19,7 @@ measurement of the tools the model abstracts (`timeout`, sh exit statuses, SIGPI
 
 usage: drive_commandexec.py <in.json> <out.json>
 in : {"base": dir, "seed": n, "params": {"T":, "TL":, "S":, "WD":, "OVER":}, "cases": [CASE records + "id"]}
-out: {"traces": [{"id", "case", "events"}], "stats": {..}, "tools": {...}}
+out: {"traces": [{"id", "round", "case", "events"}], "stats": {..}, "tools": {...}}
 """
 import fcntl
 import json
@@ -571,7 +574,8 @@ def run_case(base, idx, case, params, stats):
     unrestored = max(0, nfds() - fds0) + len(subprocess._active)
     if unrestored:
         del subprocess._active[:]
-    events = [dict(ev="spawn", stages=w.stage_views()),
+    events = [dict(ev="timing", ended=ended, watchdog=bool(fired)),
+              dict(ev="spawn", stages=w.stage_views()),
               dict(ev="stdin", stages=w.stage_inputs(tab)),
               dict(ev="time", overran=wall >= params["OVER"], ended=ended, watchdog=bool(fired), wall_ms=int(wall * 1000)),
               res,
@@ -579,7 +583,7 @@ def run_case(base, idx, case, params, stats):
                    settled=dict(running=run2, zombies=zom2, fds=max(0, fds2)), unrestored=unrestored,
                    killed_by_driver=killed)]
     stats["kind:" + res["kind"]] = stats.get("kind:" + res["kind"], 0) + 1
-    stats["procs"] = stats.get("procs", 0) + sum(1 for v in events[0]["stages"] if v["started"])
+    stats["procs"] = stats.get("procs", 0) + sum(1 for v in events[1]["stages"] if v["started"])
     if fired:
         stats["watchdog"] = stats.get("watchdog", 0) + 1
     shutil.rmtree(w.d, True)
@@ -619,7 +623,7 @@ def main():
         cs["st"] = [dict(b) for b in case["st"]]
         events = run_case(base, idx, cs, params, stats)
         pub = dict((k, case[k]) for k in ("st", "api", "keep", "tmo", "sig", "split", "form", "meta", "env", "bare", "flt"))
-        traces.append(dict(id=case["id"], case=pub, events=events))
+        traces.append(dict(id=case["id"], round=int(job.get("round", 1)), case=pub, events=events))
     kill_descendants()
     os.environ["PATH"] = ORIG_PATH
     with open(sys.argv[2], "w") as f:
